@@ -68,6 +68,18 @@ T = {
     "a callback that modifies the evbuffer it is registered on (immediate: change reported twice; deferred: change lost)"),
  "C13-remove-buffer-relinked-not-reported": ("C13", "/tmp/adv_C13", "demo/patch2.diff", "demo/run.sh", ["C13", "C12"],
     "remove_buffer from a multi-chain source covering at least its first chain but not all of it, with a callback on the destination"),
+ "C23-obsfold-rejected-across-read-boundary": ("C23", "/tmp/adv_C23", "demo/patch.diff", "demo/run.sh", ["C23"],
+    "obs-fold header with a read boundary between the folded field line and the end of its continuation line"),
+ "C23-empty-line-tolerance-per-read": ("C23", "/tmp/adv_C23", "demo/patch2.diff", "demo/run.sh demo2.c", ["C23"],
+    "two stray CRLFs before a request line with a read boundary between or inside them"),
+ "C11-reinit-deletes-parent-notify-registration": ("C11", "/tmp/adv_C11", "demo/patch.diff", "demo/run.sh demo", ["C11"],
+    "threading enabled (base owns a wake-up fd), default epoll, child calls event_reinit; the parent later depends on a cross-thread wake-up"),
+ "C11-reinit-drops-ev-closed": ("C11", "/tmp/adv_C11", "demo/patch2.diff", "demo/run.sh demo2", ["C11", "C05", "C04"],
+    "EV_CLOSED event added before fork on a backend with early-close support, event_reinit in the child, then the peer closes"),
+ "C18-watermark-toggle-leaves-cb-disabled": ("C18", "/tmp/adv_C18", "demo/patch.diff", "demo/run.sh", ["C18"],
+    "read high watermark set, cleared to 0, set again; then more than `high` bytes arrive and the application drains outside the read callback"),
+ "C18-filter-stale-limit": ("C18", "/tmp/adv_C18", "demo/patch2.diff", "demo/run.sh", ["C18"],
+    "filter over an underlying bufferevent with a non-draining output and a write high watermark; output filter moving less than the limit per call"),
  "C45-prepare-timeout-recomputed": ("C45", "/tmp/adv_C45", "demo/patch2.diff", "demo/run.sh", ["C45"],
     "a prepare watcher that adds/removes a timer or activates an event"),
 }
